@@ -1,11 +1,67 @@
 /-
 C05 — calendar, Julian-date and scenario times agree; requested durations are honoured.
+
+The float operations are modelled bit for bit (`RV.Num.F64`, `RV.Model.Time`); the lemmas behind these theorems are
+in `RV/Proofs/Time.lean`: every operation of `getJulianDate`, `getCalendarDate` and `days2mdh` is exact on whole
+seconds except the quotient `S/86400` and the sum `J + frac`, whose errors are bounded by `2^-54` and `2^-32` day.
 -/
 import RV.Model.Time
 import RV.Proofs.F64
+import RV.Proofs.Time
 
 namespace RV.Props.C05
-open RV.Time RV.F64
+open RV.Time RV.F64 RV.Proofs.Time
+
+/-- a whole-second civil instant of the years 1901-2099 (the range of the conversion formula) -/
+abbrev Valid (c : Civil) : Prop := ValidCivil c ∧ c.d ≤ monthLenT ((c.y - 1900) % 4 == 0) c.mo
+
+/-- **calendar → Julian date → calendar is the identity** for every whole second of 1901-2099 -/
+theorem civil_roundtrip (c : Civil) (h : Valid c) : j2dSeconds .nearest (jdOf c) = civilToSeconds c :=
+  RV.Proofs.Time.civil_roundtrip c h.1 h.2
+
+/-- the date fields come back exactly; the time of day comes back as the sexagesimal digits of a day fraction within
+`2^-32 + 2^-54` day (20 microseconds) of the true one -/
+theorem calendar_fields_recovered (c : Civil) (h : Valid c) :
+    (getCalendarDate (jdOf c)).y = c.y ∧ (getCalendarDate (jdOf c)).mo = c.mo ∧ (getCalendarDate (jdOf c)).d = c.d := by
+  obtain ⟨g, _, _, _, _, hcal⟩ := calendar_recovered c h.1 h.2
+  rw [hcal]; exact ⟨rfl, rfl, rfl⟩
+
+/-- **Julian dates are strictly increasing in civil time**: distinct instants have distinct, equally ordered Julian dates -/
+theorem jd_strict_mono (c1 c2 : Civil) (h1 : ValidCivil c1) (h2 : ValidCivil c2)
+    (hlt : civilToSeconds c1 < civilToSeconds c2) : jdOf c1 < jdOf c2 :=
+  RV.Proofs.Time.jd_strict_mono c1 c2 h1 h2 hlt
+
+theorem jd_injective (c1 c2 : Civil) (h1 : ValidCivil c1) (h2 : ValidCivil c2) (h : jdOf c1 = jdOf c2) :
+    civilToSeconds c1 = civilToSeconds c2 := by
+  rcases lt_trichotomy (civilToSeconds c1) (civilToSeconds c2) with hlt | heq | hgt
+  · exact absurd h (ne_of_lt (jd_strict_mono c1 c2 h1 h2 hlt))
+  · exact heq
+  · exact absurd h.symm (ne_of_lt (jd_strict_mono c2 c1 h2 h1 hgt))
+
+/-- the Julian date of an instant is within 21 microseconds of its exact value -/
+theorem jd_accuracy (c : Civil) (hv : ValidCivil c) :
+    |jdOf c - ((dayCount c : Rat) + 17210135 / 10 + (secOfDay c : Rat) / 86400)| * 86400 < 21 / 1000000 :=
+  jd_error c hv
+
+/-- **scenario time between two instants** (`convertToScenarioTime`) is their civil distance to within half a second
+(in fact 4.1e-5 s), the subtraction and both multiplications being exact -/
+theorem scenario_time (c0 c1 : Civil) (h0 : ValidCivil c0) (h1 : ValidCivil c1)
+    (hD0 : 0 ≤ civilToSeconds c1 - civilToSeconds c0) (hD1 : civilToSeconds c1 - civilToSeconds c0 ≤ 100000000) :
+    ∃ η : Rat, |η| < 1 / 2 ∧ toScenario (jdOf c1) (jdOf c0) = ((civilToSeconds c1 - civilToSeconds c0 : Int) : Rat) + η :=
+  let ⟨η, a, b, _⟩ := scenario_time_exact c0 c1 h0 h1 hD0 hD1
+  ⟨η, a, b⟩
+
+/-- **requested durations are honoured**: a timed run of `D` seconds (a multiple of the step) takes exactly `D / dt`
+steps. `target` is the civil instant `D` seconds after the start as `datetime + timedelta` labels it (that labelling is
+integer calendar arithmetic, tied to CPython by the bit-exact comparison of `getTargetJulianDate`). -/
+theorem timed_run_steps (start target : Civil) (D dt : Int) (hs : Valid start) (ht : ValidCivil target)
+    (hlabel : civilFromSeconds (civilToSeconds start + D) = target)
+    (htsec : civilToSeconds target = civilToSeconds start + D)
+    (hdt : 0 < dt) (hdt2 : dt ≤ 100000000) (hdiv : dt ∣ D) (hD : dt ≤ D) (hDmax : D ≤ 100000000) :
+    runSteps .nearest start D dt = some (D / dt) :=
+  RV.Proofs.Time.timed_run_steps start target D dt hs.1 ht hs.2 hlabel htsec hdt hdt2 hdiv hD hDmax
+
+/-! ### records of the defect that was repaired, and non-vacuity -/
 
 /-- the unrepaired `int(second)` rule returned 2021-03-30T16:00:01 one second early, and a timed
 run from that instant lost its last step (kept as the machine-checked record of the defect) -/
@@ -19,5 +75,13 @@ theorem civil_roundtrip_witness :
     j2dSeconds .nearest (jdOf ⟨2021, 3, 30, 16, 0, 1, 0⟩) = civilToSeconds ⟨2021, 3, 30, 16, 0, 1, 0⟩ ∧
     runSteps .nearest ⟨2021, 3, 30, 16, 0, 1, 0⟩ 3600 60 = some 60 := by
   decide +kernel
+
+/-- the hypotheses are satisfiable: the instant of the witness is `Valid`, and the labelling hypotheses of
+`timed_run_steps` hold for it -/
+example : Valid ⟨2021, 3, 30, 16, 0, 1, 0⟩ ∧
+    civilFromSeconds (civilToSeconds ⟨2021, 3, 30, 16, 0, 1, 0⟩ + 3600) = ⟨2021, 3, 30, 17, 0, 1, 0⟩ ∧
+    civilToSeconds ⟨2021, 3, 30, 17, 0, 1, 0⟩ = civilToSeconds ⟨2021, 3, 30, 16, 0, 1, 0⟩ + 3600 := by
+  refine ⟨⟨⟨by decide, by decide, by decide, by decide, by decide, by decide, by decide, by decide, by decide, by decide,
+    by decide, by decide, rfl⟩, by decide⟩, by decide +kernel, by decide +kernel⟩
 
 end RV.Props.C05
